@@ -21,7 +21,7 @@ RULE = (
     "parameter lists of 0..2 (thorough ..3) parameters of every kind/default (none, None, non-None) x every subset of "
     "{receiver, parameters, return} annotated in source with one of {class, generic, Optional, string, NewType} x every "
     "subset of parameters traced x {REPLICATE, OMIT, IGNORE} x result kinds {return, yield, yield+return, yield+None, "
-    "exception only} x {function, method, classmethod}; state = one stub of a 24..48-function module, transition = one "
+    "exception only} x {function, method, classmethod, plain function and staticmethod whose first parameter is merely NAMED self/cls}; state = one stub of a 24..48-function module, transition = one "
     "position compared with the expectation table; CLI flags cross-checked against the API; non-trivial = position that is "
     "annotated in source or traced"
 )
@@ -31,7 +31,7 @@ ASSUMPTIONS = ["the IGNORE / annotated / untraced cell is left open by the prope
 ANN_KINDS = ["class", "generic", "optional", "string", "newtype"]
 ANN_SRC = {"class": "int", "generic": "List[int]", "optional": "Optional[int]", "string": "'int'", "newtype": "UserId"}
 RESULT_KINDS = ["ret", "yield", "yield+ret", "yield+none", "exc"]
-FKINDS = ["function", "method", "classmethod"]
+FKINDS = ["function", "method", "classmethod", "function_selfname", "static_clsname"]
 T_PARAM, T_RET, T_YIELD = str, bytes, float
 
 
@@ -55,7 +55,14 @@ def gen_module(pl: Tuple[G.Param, ...], akind: str) -> Tuple[str, List[Dict[str,
     cls_lines: List[str] = ["class C1:", "    pass", ""]
     fid = 0
     for fk in FKINDS:
-        recvs = [("", False)] if fk == "function" else [("self" if fk == "method" else "cls", False), ("self" if fk == "method" else "cls", True)]
+        if fk in ("function_selfname", "static_clsname") and n == 0:
+            continue
+        base_names = names
+        if fk == "function_selfname":
+            names = ["self"] + list(base_names[1:])
+        elif fk == "static_clsname":
+            names = ["cls"] + list(base_names[1:])
+        recvs = [("", False)] if fk in ("function", "function_selfname", "static_clsname") else [("self" if fk == "method" else "cls", False), ("self" if fk == "method" else "cls", True)]
         for recv, recv_ann in recvs:
             for mask in range(2 ** (n + 1)):
                 ann = {i: ANN_SRC[akind] for i in range(n) if mask & (1 << i)}
@@ -68,23 +75,26 @@ def gen_module(pl: Tuple[G.Param, ...], akind: str) -> Tuple[str, List[Dict[str,
                 fid += 1
                 head = f"def {fname}({params})" + (f" -> {ANN_SRC[akind]}" if ret_ann else "") + ":"
                 body = "    return None"
-                if fk == "function":
+                if fk in ("function", "function_selfname"):
                     lines += [head, body, ""]
                 else:
                     if fk == "classmethod":
                         cls_lines.append("    @classmethod")
+                    elif fk == "static_clsname":
+                        cls_lines.append("    @staticmethod")
                     cls_lines += ["    " + head, "    " + body, ""]
-                metas.append({"name": fname, "fk": fk, "recv": recv, "recv_ann": recv_ann, "ann": set(ann), "ret_ann": ret_ann, "params": pl, "names": names})
+                metas.append({"name": fname, "fk": fk, "recv": recv, "recv_ann": recv_ann, "ann": set(ann), "ret_ann": ret_ann, "params": pl, "names": list(names)})
+        names = base_names
     return "\n".join(lines + cls_lines) + "\n", metas
 
 
 def live(mod, m):
-    if m["fk"] == "function":
+    if m["fk"] in ("function", "function_selfname"):
         return getattr(mod, m["name"])
     import inspect
 
     raw = inspect.getattr_static(mod.C1, m["name"])
-    return raw.__func__ if isinstance(raw, classmethod) else raw
+    return raw.__func__ if isinstance(raw, (classmethod, staticmethod)) else raw
 
 
 def make_traces(mod, metas, traced_mask: int, rk: str):
@@ -144,7 +154,7 @@ def check_stub(text: str, mod, metas, strategy: str, traced_mask: int, rk: str, 
         return [("syntax", "syntax", info.syntax_error)]
     A = ann_obj(akind, mod)
     for m in metas:
-        path = () if m["fk"] == "function" else ("C1",)
+        path = () if m["fk"] in ("function", "function_selfname") else ("C1",)
         fis = info.funcs.get((path, m["name"]))
         if not fis:
             out.append(("missing", "function", f"{m['name']} missing"))
